@@ -180,6 +180,16 @@ def check_read_only(repo: Repo, rep: Report):
         if f.module.name in ("fickling.fickle", "fickling.analysis", "fickling.tracing", "fickling.ml", "fickling.loader"):
             for d in getattr(f.node, "decorator_list", []):
                 dn = dotted(d) or (dotted(d.func) if isinstance(d, ast.Call) else "") or ""
+                if dn.split(".")[-1] == "cached_property" and f.cls is not None:
+                    # a per-instance cache with an explicit drop (`del self.<name>` / `self.__dict__.pop("<name>", ...)`) in
+                    # the same class is the class's own cache discipline: whether every edit drops it is C14.invalidate's job
+                    dropped = any(
+                        (isinstance(x, ast.Delete) and any(dotted(t) == f"self.{f.name}" for t in x.targets))
+                        or (isinstance(x, ast.Call) and isinstance(x.func, ast.Attribute) and x.func.attr == "pop" and x.args and isinstance(x.args[0], ast.Constant) and x.args[0].value == f.name)
+                        for fs in f.cls.methods.values() for g_ in fs for x in body_walk(g_.node)
+                    )
+                    if dropped:
+                        continue
                 if dn.split(".")[-1] in ("lru_cache", "cache", "cached_property"):
                     rep.bad("C13.read-only-queries", f.qualname, f"memoised:{dn.split('.')[-1]}", f"{f.qualname} is memoised with @{dn}: answers come from an earlier call's arguments' identity, not from the bytes", f.file, f.line)
     # the same memoisation applied by hand at module level: X = functools.lru_cache(...)(f)
@@ -244,6 +254,10 @@ def check_cache_atomic(repo: Repo, rep: Report):
         g = CFG(f.node)
         stores = [n for n in g.stmt_nodes((ast.Assign, ast.AnnAssign)) if any(dotted(t) == f"self.{cache}" for t in store_targets(n.ast)) and not (isinstance(n.ast.value, ast.Constant) and n.ast.value.value is None)]
         if not stores:
+            if any((dotted(d) or "").split(".")[-1] == "cached_property" for d in f.node.decorator_list):
+                # functools.cached_property stores the value only after the getter returned: atomic by construction
+                rep.ok("C13.cache-atomic", f.qualname, "functools.cached_property: the value is stored only once the getter has returned", f"{f.file}:{f.line}")
+                continue
             raise AnalysisError(f"Pickled.{name}: no cache fill found")
         for sn in stores:
             # statements that can run after the store and may raise (contain a call or attribute getter on self)
